@@ -290,10 +290,10 @@ impl Scenario for C14S {
     }
     fn count(&self, tier: Tier, variant: &str) -> u64 {
         match (tier, variant) {
-            (Tier::Quick, "os") => 10000,
-            (Tier::Quick, _) => 3000,
-            (Tier::Thorough, "os") => 500_000,
-            (Tier::Thorough, _) => 150_000,
+            (Tier::Quick, "os") => 40_000,
+            (Tier::Quick, _) => 12_000,
+            (Tier::Thorough, "os") => 1_800_000,
+            (Tier::Thorough, _) => 500_000,
         }
     }
     fn rule(&self) -> &'static str {
